@@ -440,6 +440,15 @@ fn on_tramp_answer(w: &mut World, u: usize, i: usize, kind: &AnsKind, now: u64) 
         }
         AnsKind::Resolve(_) => {
             w.stats.eval("R03d", 1);
+            // R12c: a first HTLC failing the fee/expiry test must get the 201a failure
+            if same_set {
+                if let (Some(r), Some(first)) = (set.first_rejecting, set.first) {
+                    if !set.faulted && !w.cfg.mpp_timeout.is_zero() && first == u {
+                        w.stats.eval("R12c", 2);
+                        w.violate("C12", "R12c", format!("R12c|first-htlc-{r}-resolved"), format!("first HTLC #{u} fails the {r} test but was resolved"));
+                    }
+                }
+            }
             // R07c: a rejected set must be failed
             if same_set && set.rejected_by.is_some() {
                 let (ru, r) = set.rejected_by.unwrap();
